@@ -457,6 +457,8 @@ META = (META[0] + " " + META_EXTRA, META[1])
 def run(chk, tier):
     quick = tier == "quick"
     db = D.load("checks")
+    from ..rules import params as _PR
+    _PR.check(chk, db, ['_chrono/duration', '_chrono/floor', '_chrono/ceil', '_chrono/round', '_chrono/abs', '_chrono/time_point'], floor=30)
     cast_rule(chk, db)
     conv_rule(chk, db)
     round_rule(chk, db)
